@@ -98,6 +98,7 @@ pub fn judge(src: &str, family: &str, o: &mut Outcome) {
     };
     if !report.errors.is_empty() {
         o.class("rejected-by-analyzer");
+        trace("rejected", src);
         return;
     }
     crate::engine::set_phase("lower");
@@ -125,7 +126,16 @@ pub fn judge(src: &str, family: &str, o: &mut Outcome) {
     crate::engine::set_phase("facade");
     let facade = panics::catch(|| {
         let mut ws = tx3_lang::Workspace::from_string(src.to_string());
-        ws.lower().map_err(|e| e.to_string())
+        ws.lower().map_err(|e| {
+            let kind = match &e {
+                tx3_lang::Error::Lowering(le) => lower_err_signature(le).replacen("lower-err|", "", 1),
+                tx3_lang::Error::Parsing(_) => "Parsing".to_string(),
+                tx3_lang::Error::Analyzing(_) => "Analyzing".to_string(),
+                tx3_lang::Error::Apply(_) => "Apply".to_string(),
+                _ => "other".to_string(),
+            };
+            (kind, e.to_string())
+        })
     });
     match facade {
         Err(p) => {
@@ -135,13 +145,25 @@ pub fn judge(src: &str, family: &str, o: &mut Outcome) {
                 format!("Workspace::lower panicked for an accepted program: {}", crate::engine::first_line(&p.message, 160)),
             ));
         }
-        Ok(Err(e)) => {
+        Ok(Err((kind, e))) => {
             ok = false;
-            o.violate(Violation::new(format!("facade-err|{family}"), format!("Workspace::lower returned an error for an accepted program: {e}")));
+            o.violate(Violation::new(format!("facade-err|{kind}|{family}"), format!("Workspace::lower returned an error for an accepted program: {e}")));
         }
         Ok(Ok(())) => {}
     }
     o.class(if ok { "accepted-and-lowered" } else { "accepted-not-lowerable" });
+    trace(if ok { "lowered" } else { "not-lowerable" }, src);
+}
+
+/// maintenance aid: VERIF_C13_TRACE=<dir> appends "<class>\t<source as JSON string>" per judged program
+fn trace(class: &str, src: &str) {
+    if let Ok(dir) = std::env::var("VERIF_C13_TRACE") {
+        use std::io::Write;
+        let _ = std::fs::create_dir_all(&dir);
+        if let Ok(mut f) = std::fs::OpenOptions::new().create(true).append(true).open(format!("{dir}/{}", std::process::id())) {
+            let _ = writeln!(f, "{class}\t{}", serde_json::to_string(src).unwrap_or_default());
+        }
+    }
 }
 
 impl Prop for C13 {
